@@ -150,29 +150,44 @@ def TcrLevenshtein__init__(self: OneOf(Inst("AlphaCdr3Levenshtein"), Inst("BetaC
 def AlphaCdr3Levenshtein__init__(self: Inst("AlphaCdr3Levenshtein"), insertion_weight: Pos, deletion_weight: Pos, substitution_weight: Pos):
     raises(None)
     ensures(configured(self, insertion_weight, deletion_weight, substitution_weight, 1, 1, 1, 1, 1), name="post[scorer and weights as given, others 1]")
+    sets("_scorer", wlev_scorer(insertion_weight, deletion_weight, substitution_weight), assume_only=True)
+    sets("_chain_weights", chain_weights(1, 1), assume_only=True)
+    sets("_cdr_weights", cdr_weights(1, 1, 1), assume_only=True)
 
 
 @contract("pyrepseq.metric.tcr_metric.tcr_levenshtein.BetaCdr3Levenshtein.__init__", props=["C09"], scope="tcrlev_init_BetaCdr3Levenshtein")
 def BetaCdr3Levenshtein__init__(self: Inst("BetaCdr3Levenshtein"), insertion_weight: Pos, deletion_weight: Pos, substitution_weight: Pos):
     raises(None)
     ensures(configured(self, insertion_weight, deletion_weight, substitution_weight, 1, 1, 1, 1, 1), name="post[scorer and weights as given, others 1]")
+    sets("_scorer", wlev_scorer(insertion_weight, deletion_weight, substitution_weight), assume_only=True)
+    sets("_chain_weights", chain_weights(1, 1), assume_only=True)
+    sets("_cdr_weights", cdr_weights(1, 1, 1), assume_only=True)
 
 
 @contract("pyrepseq.metric.tcr_metric.tcr_levenshtein.Cdr3Levenshtein.__init__", props=["C09"], scope="tcrlev_init_Cdr3Levenshtein")
 def Cdr3Levenshtein__init__(self: Inst("Cdr3Levenshtein"), insertion_weight: Pos, deletion_weight: Pos, substitution_weight: Pos, alpha_weight: Pos, beta_weight: Pos):
     raises(None)
     ensures(configured(self, insertion_weight, deletion_weight, substitution_weight, alpha_weight, beta_weight, 1, 1, 1), name="post[scorer and weights as given, others 1]")
+    sets("_scorer", wlev_scorer(insertion_weight, deletion_weight, substitution_weight), assume_only=True)
+    sets("_chain_weights", chain_weights(alpha_weight, beta_weight), assume_only=True)
+    sets("_cdr_weights", cdr_weights(1, 1, 1), assume_only=True)
 
 
 @contract("pyrepseq.metric.tcr_metric.tcr_levenshtein.AlphaCdrLevenshtein.__init__", props=["C09"], scope="tcrlev_init_AlphaCdrLevenshtein")
 def AlphaCdrLevenshtein__init__(self: Inst("AlphaCdrLevenshtein"), insertion_weight: Pos, deletion_weight: Pos, substitution_weight: Pos, cdr1_weight: Pos, cdr2_weight: Pos, cdr3_weight: Pos):
     raises(None)
     ensures(configured(self, insertion_weight, deletion_weight, substitution_weight, 1, 1, cdr1_weight, cdr2_weight, cdr3_weight), name="post[scorer and weights as given, others 1]")
+    sets("_scorer", wlev_scorer(insertion_weight, deletion_weight, substitution_weight), assume_only=True)
+    sets("_chain_weights", chain_weights(1, 1), assume_only=True)
+    sets("_cdr_weights", cdr_weights(cdr1_weight, cdr2_weight, cdr3_weight), assume_only=True)
 
 
 @contract("pyrepseq.metric.tcr_metric.tcr_levenshtein.BetaCdrLevenshtein.__init__", props=["C09"], scope="tcrlev_init_BetaCdrLevenshtein")
 def BetaCdrLevenshtein__init__(self: Inst("BetaCdrLevenshtein"), insertion_weight: Pos, deletion_weight: Pos, substitution_weight: Pos, cdr1_weight: Pos, cdr2_weight: Pos, cdr3_weight: Pos):
     raises(None)
     ensures(configured(self, insertion_weight, deletion_weight, substitution_weight, 1, 1, cdr1_weight, cdr2_weight, cdr3_weight), name="post[scorer and weights as given, others 1]")
+    sets("_scorer", wlev_scorer(insertion_weight, deletion_weight, substitution_weight), assume_only=True)
+    sets("_chain_weights", chain_weights(1, 1), assume_only=True)
+    sets("_cdr_weights", cdr_weights(cdr1_weight, cdr2_weight, cdr3_weight), assume_only=True)
 
 # (CdrLevenshtein defines no constructor of its own: it uses TcrLevenshtein.__init__ with all eight weights)
